@@ -94,6 +94,26 @@ func GenTopo(t *rapid.T, maxIPsPerPool int) Topo {
 		}
 		topo.Pools = append(topo.Pools, p)
 	}
+	// interleave: when two pools share a pod subnet, the last range of the first may move behind the first range of the second, so
+	// that a range of one pool lies in a gap between the ranges of the other
+	if sharedMode && rapid.Bool().Draw(t, "interleave") {
+	swap:
+		for a := range topo.Pools {
+			for b := a + 1; b < len(topo.Pools); b++ {
+				A, B := &topo.Pools[a], &topo.Pools[b]
+				if A.Subnet == B.Subnet && len(A.Ranges) >= 2 && len(B.Ranges) >= 1 && A.Ranges[len(A.Ranges)-1][1] < B.Ranges[0][0] {
+					A.Ranges[len(A.Ranges)-1], B.Ranges[0] = B.Ranges[0], A.Ranges[len(A.Ranges)-1]
+					// keep B sorted
+					for i := 0; i+1 < len(B.Ranges); i++ {
+						if B.Ranges[i][0] > B.Ranges[i+1][0] {
+							B.Ranges[i], B.Ranges[i+1] = B.Ranges[i+1], B.Ranges[i]
+						}
+					}
+					break swap
+				}
+			}
+		}
+	}
 	nn := rapid.IntRange(1, 5).Draw(t, "nNodes")
 	for i := 0; i < nn; i++ {
 		u := uni[rapid.IntRange(0, nu-1).Draw(t, "nodeSubnet")]
@@ -406,12 +426,18 @@ func GenHistory(t *rapid.T, hp *HistoryParams) Case {
 			c.Ops = append(c.Ops, genOp(t, kinds, hp, 0))
 			continue
 		}
-		maxKind := 7
+		maxKind := 8
 		if hp.Episodes {
-			maxKind = 15
+			maxKind = 16
 		}
 		sched := func() []int { return GenSchedule(t) }
-		switch rapid.IntRange(0, maxKind).Draw(t, "phraseKind") {
+		pk := rapid.IntRange(0, maxKind).Draw(t, "phraseKind")
+		if !hp.Episodes && pk == 8 {
+			pk = 16
+		}
+		switch pk {
+		case 16: // a pod is retired, its events handled, an administrator releases what it left behind, then the pod comes back
+			c.Ops = append(c.Ops, ab("delete"), Op{K: "deliver"}, Op{K: "deliver"}, ab("unbind"), ab("apirelease"), ab("create"), ab("sched"))
 		case 14, 15: // the old incarnation's unbind holds the pod lock while the replacement's bind and an API release queue behind it;
 			// the pod cache learns about the replacement in between (one event delivered: the cache has seen the deletion only)
 			c.Ops = append(c.Ops, ab("recreate"), Op{K: "deliver"}, ab("filter"),
